@@ -20,6 +20,11 @@ pub enum Which {
     C03,
     /// plain patterns against the regex crate (and the closed form)
     C04,
+    /// look-behinds whose constant size is a large count
+    C13,
+    /// large and nested counts around a body that can match the empty string, on tiny texts:
+    /// no limit error although the exploration is tiny
+    C07,
 }
 
 struct Form {
@@ -38,6 +43,12 @@ enum Kind {
     AtLeast,
     /// `{1,n}` (n >= 1): 1 <= m <= n
     UpTo,
+    /// negative look-behind of size n: m < n
+    LessThan,
+    /// body can match the empty string, texts of length 0..2: always a match (n >= 2)
+    Tiny,
+    /// `^.*(?<=a{N})$`: the last N characters are all a (texts with an x in them)
+    Suffix,
 }
 
 const FANCY_FORMS: &[Form] = &[
@@ -54,6 +65,27 @@ const FANCY_FORMS: &[Form] = &[
     Form { template: "^(?:a(?=)){N}?$", kind: Kind::Exact(1), cap: 300 },
     Form { template: "^(?:a(?=)){1,N}?$", kind: Kind::UpTo, cap: 300 },
     Form { template: "^(?:a(?=)){N,}+$", kind: Kind::AtLeast, cap: 300 },
+];
+
+const LOOKBEHIND_FORMS: &[Form] = &[
+    Form { template: "^.*(?<=a{N})$", kind: Kind::Suffix, cap: 3_000 },
+    Form { template: "^.*(?<=(?=)a{N})$", kind: Kind::Suffix, cap: 3_000 },
+    Form { template: "^.*(?<=a{N})(?<!xa{N})$", kind: Kind::Suffix, cap: 3_000 },
+    Form { template: "^a*(?<=^a{N})$", kind: Kind::Exact(1), cap: 20_000 },
+    Form { template: "^a*(?<=a{N})$", kind: Kind::AtLeast, cap: 20_000 },
+    Form { template: "^a*(?<!a{N})$", kind: Kind::LessThan, cap: 20_000 },
+    Form { template: "^a*(?<=(?:a|a){N})$", kind: Kind::AtLeast, cap: 300 },
+    Form { template: "^a*(?<=(?=)a{N})$", kind: Kind::AtLeast, cap: 20_000 },
+];
+
+const NULLABLE_FORMS: &[Form] = &[
+    Form { template: "^(?:(?=)|a){0,N}$", kind: Kind::Tiny, cap: 5000 },
+    Form { template: "^(?:\\B|a){0,N}$", kind: Kind::Tiny, cap: 5000 },
+    Form { template: "^(?:(?:(?=)|a){0,N}){0,N}$", kind: Kind::Tiny, cap: 40 },
+    Form { template: "^(?:(?:(?:(?=)|a){0,N}){0,N}){0,N}$", kind: Kind::Tiny, cap: 12 },
+    Form { template: "^(?:a?(?=)){N}$", kind: Kind::Tiny, cap: 600 },
+    Form { template: "^(?:(?:a(?=))?){2,N}$", kind: Kind::Tiny, cap: 600 },
+    Form { template: "^(?:(a)|(?=)){0,N}\\1?$", kind: Kind::Tiny, cap: 600 },
 ];
 
 const PLAIN_FORMS: &[Form] = &[
@@ -84,10 +116,50 @@ fn expect(kind: Kind, n: usize, m: usize) -> bool {
         Kind::Exact(mult) => m == mult * n,
         Kind::AtLeast => m >= n,
         Kind::UpTo => m >= 1 && m <= n,
+        Kind::LessThan => m < n,
+        Kind::Tiny => true,
+        Kind::Suffix => unreachable!(),
     }
 }
 
+/// texts with their expected verdict
+fn cases(f: &Form, n: usize) -> Vec<(String, bool)> {
+    if let Kind::Suffix = f.kind {
+        let a = |k: usize| "a".repeat(k);
+        let third = f.template.contains("(?<!xa{N})");
+        let mut v = vec![
+            (a(n), true),
+            (a(n + 1), true),
+            (format!("x{}", a(n)), !third),
+            (format!("ax{}", a(n)), !third),
+        ];
+        if n >= 1 {
+            v.push((a(n - 1), false));
+            v.push((format!("x{}", a(n - 1)), false));
+            v.push((format!("{}x{}", a(n), a(n - 1)), false));
+            v.push((format!("{}x", a(n)), n == 0));
+        }
+        if n >= 2 {
+            // only the first / only the last few of the N characters are a
+            v.push((format!("{}x{}", a(n / 2), a(n - n / 2 - 1)), false));
+            v.push((format!("{}{}", a(n / 10 + 1), "x".repeat(n - n / 10 - 1)), false));
+        }
+        return v;
+    }
+    lengths(f.kind, n)
+        .into_iter()
+        .map(|m| {
+            // \b needs a word character next to it: the empty text has no boundary
+            let exp = expect(f.kind, n, m) && !(m == 0 && f.template.contains("\\b"));
+            (text_of(m), exp)
+        })
+        .collect()
+}
+
 fn lengths(kind: Kind, n: usize) -> Vec<usize> {
+    if let Kind::Tiny = kind {
+        return vec![0, 1, 2];
+    }
     let mut v = vec![n.saturating_sub(1), n, n + 1];
     if let Kind::Exact(2) = kind {
         v.extend([(2 * n).saturating_sub(1), 2 * n, 2 * n + 1]);
@@ -129,9 +201,11 @@ pub fn counts(dense: usize, top: usize) -> Vec<usize> {
 pub fn describe(which: Which, dense: usize, top: usize) -> String {
     let top = top_for(which, top);
     let forms: Vec<&str> = match which {
-        Which::C01 => FANCY_FORMS.iter().map(|f| f.template).collect(),
+        Which::C01 => FANCY_FORMS.iter().chain(LOOKBEHIND_FORMS.iter()).chain(NULLABLE_FORMS.iter()).map(|f| f.template).collect(),
         Which::C04 => PLAIN_FORMS.iter().map(|f| f.template).collect(),
         Which::C03 => PAIRS.iter().map(|p| p.1).collect(),
+        Which::C13 => LOOKBEHIND_FORMS.iter().map(|f| f.template).collect(),
+        Which::C07 => NULLABLE_FORMS.iter().map(|f| f.template).collect(),
     };
     format!(
         "large-count sweep: every repeat bound N in 0..={} and the neighbours of the powers of 2 and 10 up to {} ({} values) in the forms {:?} on the texts a^m for m around N (N-1, N, N+1; 2N for doubled forms); oracle: {}",
@@ -143,6 +217,8 @@ pub fn describe(which: Which, dense: usize, top: usize) -> String {
             Which::C01 => "closed form (a^m is matched by ^a{N}$ iff m = N, by {N,} iff m >= N, by {1,N} iff 1 <= m <= N)",
             Which::C04 => "the regex crate on the identical string, and the closed form",
             Which::C03 => "the plain spelling and the spelling with an injected (?=) agree on span and groups",
+            Which::C13 => "closed form: the look-behind looks back exactly N characters (a^m has N a's before its end iff m >= N)",
+            Which::C07 => "the texts are '', 'a', 'aa', the body can match the empty string, N >= 2: always a match, found without any limit error (StackOverflow / BacktrackLimitExceeded)",
         }
     )
 }
@@ -172,8 +248,13 @@ pub fn sweep(which: Which, dense: usize, top: usize) -> Tally {
             }
             match which {
                 Which::C01 => {
-                    for f in FANCY_FORMS {
+                    for f in FANCY_FORMS.iter().chain(LOOKBEHIND_FORMS.iter()) {
                         if n <= f.cap {
+                            one_form(&mut t, f, n, false);
+                        }
+                    }
+                    for f in NULLABLE_FORMS {
+                        if n <= f.cap && n >= 2 {
                             one_form(&mut t, f, n, false);
                         }
                     }
@@ -181,6 +262,20 @@ pub fn sweep(which: Which, dense: usize, top: usize) -> Tally {
                 Which::C04 => {
                     for f in PLAIN_FORMS {
                         one_form(&mut t, f, n, true);
+                    }
+                }
+                Which::C13 => {
+                    for f in LOOKBEHIND_FORMS {
+                        if n <= f.cap {
+                            one_form(&mut t, f, n, false);
+                        }
+                    }
+                }
+                Which::C07 => {
+                    for f in NULLABLE_FORMS {
+                        if n <= f.cap && n >= 2 {
+                            one_form(&mut t, f, n, false);
+                        }
                     }
                 }
                 Which::C03 => {
@@ -201,6 +296,10 @@ fn text_of(m: usize) -> String {
 
 fn one_form(t: &mut Tally, f: &Form, n: usize, against_regex_crate: bool) {
     if matches!(f.kind, Kind::UpTo) && n == 0 {
+        return;
+    }
+    if matches!(f.kind, Kind::LessThan) && n == 0 {
+        // (?<!a{0}) never holds
         return;
     }
     let pattern = spell(f.template, n);
@@ -239,11 +338,9 @@ fn one_form(t: &mut Tally, f: &Form, n: usize, against_regex_crate: bool) {
         return;
     }
     t.programs += 1;
-    for m in lengths(f.kind, n) {
-        let text = text_of(m);
+    for (text, exp) in cases(f, n) {
+        let m = text.len();
         t.evaluations += 1;
-        // \b needs a word character next to it: the empty text has no boundary
-        let exp = expect(f.kind, n, m) && !(m == 0 && f.template.contains("\\b"));
         if exp {
             t.nontrivial += 1;
         }
@@ -254,7 +351,7 @@ fn one_form(t: &mut Tally, f: &Form, n: usize, against_regex_crate: bool) {
             Out::NoMatch => Some(false),
             _ => None,
         };
-        let shown = if m <= 24 { format!("{:?}", text) } else { format!("a^{}", m) };
+        let shown = if m <= 24 { format!("{:?}", text) } else if text.bytes().all(|b| b == b'a') { format!("a^{}", m) } else { format!("{:?}...({} bytes)", &text[..12], m) };
         if got_b != Some(exp) {
             t.violation(
                 pattern.len() + 4 * m,
